@@ -1,7 +1,7 @@
-\* Universe T (quick): terms of <= 2 operator applications over v1, v2, a raw GEKKO variable, constants 3 and 1/4, Python numbers 2 (int) and -1/2 (float), all five binary operators and sqrt; no operations.
+\* Universe T (quick): terms of <= 2 operator applications over v1, v2, a raw GEKKO variable, the constant 3, Python numbers 2 (int) and -1/2 (float), all five binary operators and sqrt; no operations.
 SPECIFICATION Spec
 CONSTANTS
-  Consts <- ConstsA
+  Consts <- ConstsQ
   Scals <- ScalsA
   Vals <- ValsA
   Inits <- InitsA
